@@ -13,7 +13,7 @@ func init() {
 		e.perShard = 50
 		e.rep.Rule = "truthiness matrix: every value kind of the pool (+ Go-only kinds, + an unknown identifier) in the ten contexts if / else-if / ! / !! / x && true / x || false / true && x / false || x / else-if (true && x) / !(false || x), which must agree with each other and with the documented table (nil, false, empty string, empty HTML, nil pointers, unknown identifiers falsy; everything else truthy); if/else-if/else chains of 1..5 branches under every truth assignment with counting helpers as conditions, at top level and nested in for / fn / block helper: the output must be the first truthy branch and the log must show exactly conditions 1..k evaluated; distinct by template+assignment"
 		pool := c04pool()
-		falsy := map[string]bool{"vnil": true, "vf": true, "ve": true, "vnp": true}
+		falsy := map[string]bool{"vnil": true, "vf": true, "ve": true, "vhe": true, "vnp": true}
 		ctxT := func(x string) string {
 			return fmt.Sprintf("<%%= if (%s) { %%>Y<%% } %%>|<%%= if (vf) { %%>a<%% } else if (%s) { %%>Y<%% } %%>|<%%= !%s %%>|<%%= !!%s %%>|<%%= %s && true %%>|<%%= %s || false %%>|<%%= true && %s %%>|<%%= false || %s %%>|<%%= if (false) { %%>a<%% } else if (true && %s) { %%>Y<%% } else { %%>N<%% } %%>|<%%= !(false || %s) %%>", x, x, x, x, x, x, x, x, x, x)
 		}
